@@ -83,7 +83,8 @@ keep them, so the theorem applies again at the next of any number of successive 
 theorem durable_returned (P : Params) (G : Good P) (S : Nat) (g : Group) (hf : FilesOK P g)
     (hs : List Bytes) (hv : ∀ d ∈ hs, ValidRec P d) (hc : g.head ++ g.buf = frames P hs)
     (cut hl tl : Nat) (h : Int) (e0 : Bytes) (he : ValidRec P e0) (res : RecoverRes) (g' : Group)
-    (hrec : recover P S (onStart P S (openGroup (crash g cut) hl tl) e0).1 h e0 = (res, g'))
+    (dhl dtl : Nat)
+    (hrec : recover P S dhl dtl (onStart P S (openGroup (crash g cut) hl tl) e0).1 h e0 = (res, g'))
     (hok : RecoveredOK res) :
     (∀ j, fileAt g' j = fileAt g j) ∧ g'.buf = [] ∧
       ((∃ hw', (∀ d ∈ hw', ValidRec P d) ∧ g'.head = frames P hw' ∧
@@ -162,7 +163,7 @@ theorem durable_returned (P : Params) (G : Good P) (S : Nat) (g : Group) (hf : F
     rcases hcase with ⟨_, rfl⟩ | ⟨_, _, _, rfl⟩
     · exact hd0
     · exact Or.inl rfl
-  obtain ⟨c1, c2, c3⟩ := recover_clean P G S g2 h e0 he hf2 hw2 t2 hr2 _ _ hd02 hb2 res g' hrec hok
+  obtain ⟨c1, c2, c3⟩ := recover_clean P G S g2 h e0 he hf2 hw2 t2 hr2 _ _ hd02 hb2 dhl dtl res g' hrec hok
   refine ⟨fun j => (c1 j).trans (fileAt_congr hfiles2 j), c2, ?_⟩
   rcases c3 with ⟨hw', hv', hhead', hafter⟩ | hcol
   · left
@@ -217,6 +218,21 @@ theorem hist_rotate (g : Group) :
   simp only [flushAndSync]
   rw [lookup_setFile]
   split <;> simp
+
+/-- The marker-missing branch of `catchupReplay` (it writes the previous height's marker) is
+not taken by a recovery that reported a successful replay: `durable_returned` is about the state
+the real start-up leaves. -/
+theorem recover_marker_branch_inert (P : Params) (S dhl dtl : Nat) (g : Group) (h : Int)
+    (e0 em : Bytes) (hok : RecoveredOK (recover P S dhl dtl g h e0).1) :
+    recoverW P S dhl dtl g h e0 em = recover P S dhl dtl g h e0 := by
+  unfold recoverW
+  cases hr : recover P S dhl dtl g h e0 with
+  | mk res g' =>
+    rw [hr] at hok
+    simp only
+    cases res with
+    | first r => cases r <;> first | rfl | exact hok.elim
+    | repaired e r w => cases r <;> first | rfl | exact hok.elim
 
 /-! ## pruning -/
 
@@ -307,12 +323,12 @@ example : HeadRep exP exG [[0], [1], [7, 7, 0]] [] :=
   ⟨by intro d hd; simp at hd; rcases hd with rfl | rfl | rfl <;> (unfold ValidRec; decide),
    by simp [exG], Or.inl rfl⟩
 /-- a crash that tears the last record inside its checksum: repaired, both durable markers kept -/
-example : ∃ e ds w, (recover exP 40960 (onStart exP 40960 (openGroup (crash exG 9) 0 0) exE0).1 2 exE0).1
+example : ∃ e ds w, (recover exP 40960 0 0 (onStart exP 40960 (openGroup (crash exG 9) 0 0) exE0).1 2 exE0).1
     = .repaired e (.ok ds) w := ⟨_, _, _, rfl⟩
-example : (recover exP 40960 (onStart exP 40960 (openGroup (crash exG 9) 0 0) exE0).1 2 exE0).2.head
+example : (recover exP 40960 0 0 (onStart exP 40960 (openGroup (crash exG 9) 0 0) exE0).1 2 exE0).2.head
     = frames exP [[0], [1]] := by decide
 /-- a crash that loses only the record's last byte, which was zero: the repair restores it -/
-example : (recover exP 40960 (onStart exP 40960 (openGroup (crash exG 1) 0 0) exE0).1 2 exE0).2.head
+example : (recover exP 40960 0 0 (onStart exP 40960 (openGroup (crash exG 1) 0 0) exE0).1 2 exE0).2.head
     = frames exP [[0], [1], [7, 7, 0]] := by decide
 /-- the search finds the durable marker 1 and not the never written 2 -/
 example : (∃ rest, (search exP exG 1 true).1 = .found rest) := ⟨_, rfl⟩
